@@ -319,6 +319,11 @@ class SplitSock(env._PlainSocket):
             nrecv = len([e for e in w.log if e[0] == 'recv'])
             while self.script is not None and self.script.remaining() > 0 and len([e for e in w.log if e[0] == 'recv']) == nrecv:
                 w.sched.block(me, 'peer-not-reading')
+        if getattr(w, 'rst_on_send', None) not in (None, False, me) and self.script is not None and self.script.end == 'silence':
+            # the connection dies while this sendall is under way: the reset becomes visible to the event loop (blocked in its
+            # selector wait) NOW, i.e. while this thread still holds the write lock
+            self.script.end = 'error'
+            w.sched.unblock_waiters('network')
         w.sched.point(me, 'sendall-mid')
         w.log.append(('write-part', self.id, it[h:], me, snap))
 
@@ -481,15 +486,31 @@ def run_sched(c, P):
         sent[name] = []
         ping = [c.byte('%s_ping' % name)]
         w.sock_class = SplitSock
-        w.default_script = Script(hconn.server_stream([0x89, 0x01] + ping), cuts='one', end='eof')
+        loop_end = P.get('loop_end', 'eof')       # how the transport ends behind the Ping: EOF, or a socket error (connection reset)
+        w.default_script = Script(hconn.server_stream([0x89, 0x01] + ping), cuts='one', end=loop_end)
         if P.get('hs_separate'):
             # the upgrade reply arrives in its own read, the Ping in a later one
-            w.default_script = HsThenCuts(w, hconn.server_stream([0x89, 0x01] + ping), 'one', end='eof')
+            w.default_script = HsThenCuts(w, hconn.server_stream([0x89, 0x01] + ping), 'one', end=loop_end)
         if P.get('proxy'):
             # the socket is the proxy's: it answers the CONNECT, then carries the websocket handshake
             sc = Script(lambda w_, s_: list(PROXY_ANSWER), cuts='one', end='eof')
             sc.phases.append(lambda w_, s_: (hconn.reply_101(w_, s_) + [0x89, 0x01] + ping) if hconn.request_key(w_, s_) else None)
             w.default_script = sc
+        if P.get('rst_during_send'):
+            # behind the Ping the server is silent: the loop sleeps in its selector wait (a forced switch, not a preemption) until
+            # another thread's sendall makes the reset arrive (see SplitSock.sendall)
+            w.default_script.end = 'silence'
+            w.default_script.silent_waits = 10 ** 9
+            w.rst_on_send = name          # (any thread's sendall but the loop thread's own)
+
+            def advance(w_, socks, ready, timeout, scale):
+                import select as _select
+                if not ready:
+                    while not any(s_.readable() for s_ in socks):
+                        sched.block(name, 'network')
+                    ready = [s_ for s_ in socks if s_.readable()]
+                return [(s_.fd, _select.POLLIN) for s_ in ready]
+            w.advance = advance
         out = []
         gen = ws.connect(poll=1e9, ping_rate=0, ping_timeout=None, close_timeout=None)
         try:
@@ -501,6 +522,8 @@ def run_sched(c, P):
                     state['ready'] = True
                 elif ev.name == 'ping':
                     sent[name].append((10, ping))
+                elif ev.name == 'disconnected':
+                    state['graceful'] = ev.graceful
                 out.append(ev.name)
                 if P.get('loop_abandon_at') == ev.name:
                     # the consumer stops iterating here and closes the generator (C13), whatever other threads are doing
@@ -671,6 +694,25 @@ def run_sched(c, P):
             c.fail('C11: %d message(s) never reached the wire' % sum(len(q) for q in left.values()),
                    sig='C11: message lost')
         cls.add('frames:%d' % len(frames))
+    if 'C09' in tags:
+        # the transport failed under the event loop while another thread was sending: still a terminal Disconnected(graceful=False), the
+        # application's send returns or raises a WebSocketError, and the socket ends up closed
+        ev_ = state.get('loop_events') or []
+        if not ev_ or ev_[-1] != 'disconnected':
+            c.fail('C09: the event stream does not end with Disconnected after the transport failed (loop events %s)' % ev_)
+        if state.get('graceful') is not False:
+            c.fail('C09: Disconnected is graceful although no closing handshake took place (loop events %s)' % ev_)
+        for n_, res in results.items():
+            for r in res:
+                if r[1].startswith('exception'):
+                    c.fail('C09: application call %s raised %s (not a WebSocketError) while the transport failed' % (r[0], r[1]))
+        for s_ in w.socks:
+            if s_ is sock:
+                continue
+            if s_.connected and not s_.closed:
+                c.fail('C09: socket left open after the transport failed while another thread was sending (loop events %s)' % ev_,
+                       sig='C09: socket left open after a transport failure (threads)')
+        cls.add('reset-while-sending' if any(s_[2] == 'preempt@sendall-mid' for s_ in sched.switches) else 'reset')
     if 'C13' in tags:
         for s_ in w.socks:
             if s_ is sock:
